@@ -11,6 +11,10 @@ Engine E1 (product-space enumeration).  Alphabet
 * the five 'hard' moment sets of tests/spectrum/estimators/test_mem2.py with all their rotations
   and mirrors (N = 36, 72; thorough also 144); quick also runs the narrow lobes (1.5, 2, 3 bins) on
   N = 72 for mem / approximate / newton;
+* input arrangement (N = 36; thorough 24, 36, 72): the mixture lattice as a (42, F) array of (points,
+  frequencies) and as (6, 7, F), entries differing along every axis, in C / Fortran / transposed-view /
+  swapaxes-view memory layout; and on descending (clockwise) and rolled direction grids - reproduction,
+  solver agreement and the MEM alias oracle for all of them;
 * call histories: every custom solver_config of a small alphabet x solution method in between two
   rounds of default calls (thorough: also all ordered pairs of configs);
 * Jacobian: lambda in {-3,-1.5,0,1.5,3}^4 (thorough {-3,..,3}^4), N in {24,36}(,72,144), two grid
@@ -71,6 +75,7 @@ ASSUMPTIONS = [
     "the realisable set (|c2-c1^2| > 1-|c1|^2), no distribution has its moments, only equivariance is checked for it",
     "mem2/scipy equivariance beyond 1e-6 is judged in moment space against twice the solver tolerance; mem, "
     "mem2/approximate and mem2/newton must be equivariant to 1e-9 max(D)",
+    "arrangement family: uniform grids in descending / rolled order and 6 memory layouts, base cases only (no relatives)",
     "history family: solver_config alphabet of 5 dicts x {newton, scipy}; histories of length 1 (thorough: and 2)",
 ]
 REQUIRED_CATEGORIES = [
@@ -78,7 +83,9 @@ REQUIRED_CATEGORIES = [
     "quadrant_1", "quadrant_2", "quadrant_3", "quadrant_4", "mirror_relatives", "rotation_relatives",
     "reproduction_checked_newton", "reproduction_checked_scipy", "newton_scipy_compared", "mem_alias_checked",
     "equiv_exact_mem", "equiv_exact_mem2/approximate", "equiv_exact_mem2/newton", "equiv_exact_mem2/scipy",
-    "hard_case", "hard_case_unrealisable", "history_custom_config_then_default", "jacobian_points", "jacobian_first_guess_points", "increments_checked",
+    "hard_case", "hard_case_unrealisable", "history_custom_config_then_default", "memory_layout:2d-fortran", "memory_layout:3d-fortran",
+    "memory_layout:2d-T-view", "grid_order:descending", "grid_order:roll_half", "arrangement_mem_alias_checked",
+    "arrangement_reproduction_checked", "arrangement_newton_scipy_compared", "jacobian_points", "jacobian_first_guess_points", "increments_checked",
 ]
 
 VARIANTS = {
@@ -601,6 +608,136 @@ def run_jac(unit):
 
 
 # --------------------------------------------------------------------------------------------
+# input arrangement: memory layout of the moment arrays, order of the direction grid
+# --------------------------------------------------------------------------------------------
+def moments_on_grid(D, theta):
+    """midpoint-rule moments of D (per radian) on an arbitrary ordering theta of the uniform grid"""
+    dl = 2 * np.pi / len(theta)
+    m1 = (D * np.cos(theta)).sum(-1) * dl + 1j * (D * np.sin(theta)).sum(-1) * dl
+    m2 = (D * np.cos(2 * theta)).sum(-1) * dl + 1j * (D * np.sin(2 * theta)).sum(-1) * dl
+    return m1, m2
+
+
+def estimate_raw(variant, arrays, direction):
+    """the moment arrays are handed over exactly as they are (Fortran order, views); -> per radian"""
+    from ocean_science_utilities.wavespectra.estimators.estimate import estimate_directional_distribution
+
+    method, kw = VARIANTS[variant]
+    with quiet():
+        D = robust(lambda: estimate_directional_distribution(*arrays, direction.copy(), method, **kw))
+    return D * (180.0 / np.pi)
+
+
+def judge_plain(c, agg, N, theta, C1, C2, out, key0, label):
+    """reproduction (newton, scipy), newton-vs-scipy agreement and the aliased AR(2) oracle (mem) for
+    outputs out[variant] of shape C1.shape + (N,) on the grid ordering theta."""
+    moms = {}
+    for variant, D in out.items():
+        fin = np.isfinite(D).all(-1)
+        if not fin.all():
+            agg.add(dict(key0, variant=variant, check="finite"), f"{variant} N={N} ({label}): non-finite distribution")
+        moms[variant] = moments_on_grid(np.where(np.isfinite(D), D, 0.0), theta) + (fin,)
+    for variant in ("mem2/newton", "mem2/scipy"):
+        if variant in out:
+            m1, m2, fin = moms[variant]
+            res = mnorm(m1 - C1, m2 - C2)
+            bad = fin & ~(res <= ATOL + 1e-9)
+            c.cat("arrangement_reproduction_checked", int(fin.sum()))
+            for idx in zip(*np.nonzero(bad)):
+                agg.add(dict(key0, variant=variant, check="reproduces_moments"),
+                        f"{variant} N={N} ({label}): |m_in - m(D)| = {res[idx]:.4g} > {ATOL} at entry {idx}",
+                        residual=float(res[idx]))
+    if "mem2/newton" in out and "mem2/scipy" in out:
+        a1, a2, fa = moms["mem2/newton"]
+        s1, s2, fs = moms["mem2/scipy"]
+        diff = mnorm(a1 - s1, a2 - s2)
+        bad = fa & fs & ~(diff <= 2 * ATOL + 1e-9)
+        c.cat("arrangement_newton_scipy_compared", int((fa & fs).sum()))
+        for idx in zip(*np.nonzero(bad)):
+            agg.add(dict(key0, variant="mem2/newton-vs-scipy", check="solvers_agree"),
+                    f"N={N} ({label}): newton and scipy moments differ by {diff[idx]:.4g} > {2 * ATOL} at entry {idx}")
+    if "mem" in out:
+        m1, m2, fin = moms["mem"]
+        r1, r2, conv = mem_aliased_moments(C1.ravel(), C2.ravel(), N)
+        r1, r2, conv = r1.reshape(C1.shape), r2.reshape(C1.shape), conv.reshape(C1.shape)
+        usable = (realisability(C1, C2) < -1e-9) & conv & fin
+        err = mnorm(m1 - r1, m2 - r2)
+        bad = usable & ~(err <= 1e-9)
+        c.cat("arrangement_mem_alias_checked", int(usable.sum()))
+        for idx in zip(*np.nonzero(bad)):
+            agg.add(dict(key0, variant="mem", check="aliased_ar2_moments"),
+                    f"mem N={N} ({label}): discrete moments differ from the aliased AR(2) coefficients by {err[idx]:.3g} "
+                    f"at entry {idx}", error=float(err[idx]))
+
+
+def run_arrangement(unit):
+    c = Collector()
+    agg = Agg(c)
+    N, part = unit["N"], unit["part"]
+    cases = base_cases(N, "quick")
+    P = 42
+    F = len(cases) // P
+    if P * F != len(cases) or F % 1:
+        raise AssertionError("case count does not factor")
+    c1 = np.array([x for _, x, _ in cases]).reshape(P, F)
+    c2 = np.array([x for _, _, x in cases]).reshape(P, F)
+    comps2 = [np.ascontiguousarray(x) for x in (c1.real, c1.imag, c2.real, c2.imag)]
+    for x in comps2:  # entries must differ between points and between frequencies
+        if not (np.all(x.std(axis=0) > 0) and np.all(x.std(axis=1) > 0)):
+            raise AssertionError("moment arrays do not vary along both axes")
+    theta0 = 2 * np.pi * np.arange(N) / N
+    deg0 = np.linspace(0, 360, N, endpoint=False)
+    if part == "memory_layout":
+        lead3 = (6, 7)
+        comps3 = [x.reshape(lead3 + (F,)) for x in comps2]
+        arrangements = {
+            "2d-C": (comps2, c1, c2),
+            "2d-fortran": ([np.asfortranarray(x) for x in comps2], c1, c2),
+            "2d-T-view": ([np.ascontiguousarray(x.T).T for x in comps2], c1, c2),
+            "3d-fortran": ([np.asfortranarray(x) for x in comps3], c1.reshape(lead3 + (F,)), c2.reshape(lead3 + (F,))),
+            "3d-T-view": ([np.ascontiguousarray(x.transpose(2, 1, 0)).transpose(2, 1, 0) for x in comps3],
+                          c1.reshape(lead3 + (F,)), c2.reshape(lead3 + (F,))),
+            "3d-swapaxes-view": ([np.ascontiguousarray(x.swapaxes(0, 1)).swapaxes(0, 1) for x in comps3],
+                                 c1.reshape(lead3 + (F,)), c2.reshape(lead3 + (F,))),
+        }
+        for name, (arrs, _, _) in arrangements.items():
+            want = {"C": (True, False), "fortran": (False, True), "T-view": (False, True), "swapaxes-view": (False, False)}[name.split("-", 1)[1]]
+            for x in arrs:
+                if (x.flags.c_contiguous, x.flags.f_contiguous) != want:
+                    raise AssertionError("memory layout not as intended: " + name)
+        grids = {name: (deg0, theta0) for name in arrangements}
+    else:
+        arrangements = {}
+        grids = {}
+        for name, deg in (("descending", deg0[::-1].copy()), ("roll_half", np.roll(deg0, N // 2)), ("roll_1", np.roll(deg0, 1))):
+            arrangements[name] = (comps2, c1, c2)
+            grids[name] = (deg, np.radians(deg))
+    for name, (arrs, C1, C2) in arrangements.items():
+        deg, theta = grids[name]
+        key0 = {"family": "arrangement", "N": N, part: name}
+        out = {}
+        for variant in VARIANTS:
+            try:
+                D = estimate_raw(variant, arrs, deg)
+            except Exception as exc:  # noqa
+                agg.add(dict(key0, variant=variant, check="raises", exception=type(exc).__name__),
+                        f"{variant} N={N} raises {type(exc).__name__}: {exc} ({part} {name})", traceback=tb_tail(exc))
+                continue
+            if D.shape != C1.shape + (N,):
+                agg.add(dict(key0, variant=variant, check="shape"), f"{variant}: result shape {D.shape} ({part} {name})")
+                continue
+            out[variant] = D
+            c.evaluations += C1.size
+        judge_plain(c, agg, N, theta, C1, C2, out, key0, f"{part} {name}")
+        c.cat(f"{part}:{name}", C1.size)
+        c.case({"N": N, part: name})
+    c.extra["arrangement_distinct"] = len(arrangements) * len(cases)
+    c.sample({"N": N, part: list(arrangements), "entries": [P, F]})
+    agg.flush()
+    return c.result()
+
+
+# --------------------------------------------------------------------------------------------
 # history family: a call with a custom solver_config must not change later default calls
 # --------------------------------------------------------------------------------------------
 DOCUMENTED_NUMERICS = {"atol": 0.01, "max_iter": 100, "max_line_search_depth": 8, "rcond": 1e-6,
@@ -768,6 +905,9 @@ def units(tier):
             us.append({"name": f"narrow:N{N}:{s}/{shards}", "kind": "mix", "N": N, "shard": s, "shards": shards,
                        "narrow": True, "variants": ["mem", "mem2/approximate", "mem2/newton"], "cost": 6000})
     us.append({"name": "history:solver_config", "kind": "history", "cost": 40000})
+    for N in ([36] if tier == "quick" else [24, 36, 72]):
+        for part in ("memory_layout", "grid_order"):
+            us.append({"name": f"arrangement:{part}:N{N}", "kind": "arrangement", "part": part, "N": N, "cost": 8000})
     for N in hard_N(tier):
         us.append({"name": f"hard:N{N}", "kind": "hard", "N": N, "cost": 5 * 2 * N * 3.0})
     for N in tier_N(tier):
@@ -800,14 +940,17 @@ def finalize(coverage, results, tier):
     total = sum(per_N.values())
     jac = sum(int(r.get("distinct_nontrivial", 0)) for r in results if str(r.get("unit", "")).startswith("jac:"))
     hist = sum(int(r.get("extra", {}).get("history_distinct", 0)) for r in results)
-    coverage["distinct_nontrivial"] = int(total + jac + hist)
+    arr = sum(int(r.get("extra", {}).get("arrangement_distinct", 0)) for r in results)
+    coverage["distinct_nontrivial"] = int(total + jac + hist + arr)
+    coverage["distinct_arrangement_cases"] = int(arr)
     coverage["distinct_histories"] = int(hist)
     coverage["distinct_inputs_per_grid"] = per_N
     coverage["distinct_jacobian_points"] = int(jac)
 
 
 def run_unit(unit):
-    return {"mix": run_mix, "hard": run_hard, "jac": run_jac, "history": run_history}[unit["kind"]](unit)
+    return {"mix": run_mix, "hard": run_hard, "jac": run_jac, "history": run_history,
+            "arrangement": run_arrangement}[unit["kind"]](unit)
 
 
 if __name__ == "__main__":
